@@ -22,7 +22,7 @@ def random_state_ops(rng, n, npeers):
 class C13(MgrBase):
     id = "C13"
     proof_target = "Props/C13.vo"
-    theorems = ["C13_pick", "C13_pick_spec", "C13_allowed", "C13_allowed_complete"]
+    theorems = ["C13_pick", "C13_pick_spec", "C13_spec_pick", "C13_allowed", "C13_allowed_complete"]
     coq_header = ("From Rdest Require Import Base Consts Wire Manager Corr.Mgr.\nOpen Scope N_scope.\n"
                   "Definition codes := codes13.\n")
     rule = ("random manager states (0-25 pieces so that both sides of the end-game threshold 10 occur, 1-5 peers, sparse to "
